@@ -35,6 +35,8 @@ type Config struct {
 	Disabled map[string]bool
 	// Sub selects an engine sub-mode (e.g. exhaustive enumeration), "" = default.
 	Sub string
+	// RunIndex is the index of the run within its batch (enumerating sub-modes decode their case from it).
+	RunIndex int64
 	// Aux: extra replay parameters of a violation being replayed or shrunk (nil in exploration).
 	Aux []int64
 }
